@@ -21,7 +21,7 @@ ID = 'C14'
 CASE_TYPE = 'C14.case'
 EXTRA_IMPORTS = 'From PJ Require Import Model.Bind Model.Validators Corr.DispCommon.\n'
 RULE = ('signatures of 1..2 (quick) / 1..3 (thorough) positional-or-keyword / keyword-only parameters with and without defaults and an '
-        'optional context parameter; JSON-Schema side: per-parameter fragments {type, enum, minimum/maximum, array items, nested object '
+        'optional context parameter (the context object drawn from truthy and falsy values); JSON-Schema side: per-parameter fragments {type, enum, minimum/maximum, array items, nested object '
         'with required and additionalProperties false, no constraint} under a top-level object schema with required subsets and '
         'additionalProperties on/off x argument values from a per-type alphabet of conforming / non-conforming values x positional / named '
         'passing (every case also judged by the jsonschema package itself on independently bound arguments); pydantic side: annotations '
@@ -140,6 +140,8 @@ def generate(seed, tier):
             params = params + [rnd.choice(VALUES)]
         c = {'t': 'schema', 'sig': sig, 'ctx': ctx, 'schema': top, 'params': params, 'async': rnd.random() < 0.5,
              'xs': xs, 'xmode': xmode}
+        if ctx and rnd.random() < 0.5:
+            c['ctxv'] = rnd.randrange(1, 7)
         r = rnd.random()
         if r < 0.2:
             # ONE validator shared by two methods: the schema is the validator-level default, the sibling method brings its own
@@ -161,6 +163,8 @@ def generate(seed, tier):
              'coerce': rnd.random() < 0.6, 'async': rnd.random() < 0.5, 'xs': xs, 'xmode': xmode}
         if not c['ctx'] and rnd.random() < 0.2:
             c['view'] = True
+        if c['ctx'] and rnd.random() < 0.5:
+            c['ctxv'] = rnd.randrange(1, 7)
         cases.append(c)
     return cases
 
@@ -232,6 +236,13 @@ def make_function(case, is_async, log, annotations=None):
 G_SCHEMA = {'type': 'object', 'properties': {'gx': {'type': 'string'}}, 'required': ['gx'], 'additionalProperties': False}
 
 
+CTX_VALUES = ['CTX', 0, '', None, [], {}, False]       # the server-side context object: truthy and falsy ones
+
+
+def ctx_value(case):
+    return CTX_VALUES[case.get('ctxv', 0)]
+
+
 def dispatch(case, f, is_async, sibling=None):
     d = (AsyncDispatcher if is_async else Dispatcher)()
     if case.get('view'):
@@ -247,7 +258,8 @@ def dispatch(case, f, is_async, sibling=None):
         r0 = dispenv.loop().run_until_complete(d.dispatch(t0, context='CTX')) if is_async else d.dispatch(t0, context='CTX')
         assert json.loads(r0[0]).get('result') == 'g', r0
     text = json.dumps({'jsonrpc': '2.0', 'id': 1, 'method': 'f', 'params': case['params']})
-    r = dispenv.loop().run_until_complete(d.dispatch(text, context='CTX')) if is_async else d.dispatch(text, context='CTX')
+    cv = ctx_value(case)
+    r = dispenv.loop().run_until_complete(d.dispatch(text, context=cv)) if is_async else d.dispatch(text, context=cv)
     try:
         doc = json.loads(r[0])
     except ValueError:
@@ -350,10 +362,10 @@ def encode(case, obs):
     xs = clist(cstr(n) for n in (case.get('xs') or ()))
     if case['t'] == 'schema':
         return ('(C14.CSchema %s %s %s %s %s %s %s %s)'
-                % (dispenv.csig(sig), cm, xs, cjson('CTX'), cschema(case['schema']), cpp(case['params']), copt(obs['js'], cbool), cobs(obs['obs'])))
+                % (dispenv.csig(sig), cm, xs, cjson(ctx_value(case)), cschema(case['schema']), cpp(case['params']), copt(obs['js'], cbool), cobs(obs['obs'])))
     vd = clist('(%s, %s)' % (cstr(n), '(Some %s)' % cjson(v[1]) if v[0] == 'ok' else 'None') for n, v in obs['verdicts'].items())
     return ('(C14.CTyped %s %s %s %s %s %s %s %s)'
-            % (dispenv.csig(sig), cm, xs, cjson('CTX'), vd, cbool(case['coerce']), cpp(case['params']), cobs(obs['obs'])))
+            % (dispenv.csig(sig), cm, xs, cjson(ctx_value(case)), vd, cbool(case['coerce']), cpp(case['params']), cobs(obs['obs'])))
 
 
 def case_key(case):
